@@ -106,6 +106,7 @@ class Bus:
         self.nodes = []
         self.log = []
         self.drop = set()                # frame indices lost on the bus
+        self.drop_fn = None              # optional predicate fn(frame) -> lost
         self.inject = {}                 # idx -> list of (can_id, data, fd) sent by a ghost node right after frame idx
         self.taps = []                   # fn(frame) at send time
         self.rx_exc = []                 # exceptions escaping a node's handler (harness nodes only)
@@ -132,7 +133,7 @@ class Bus:
         self.log.append(fr)
         for tap in self.taps:
             tap(fr)
-        if n in self.drop:
+        if n in self.drop or (self.drop_fn is not None and self.drop_fn(fr)):
             fr.lost = True
         else:
             for rcv in self.nodes:
@@ -234,10 +235,13 @@ class Rec:
     def __init__(self, w):
         self.w = w
         self.items = []
+        self.hooks = []              # fn(tag, priority, pgn, sa, data) run inside the callback (application reacting at once)
 
     def cb(self, tag):
         def f(priority, pgn, sa, timestamp, data):
             self.items.append((tag, self.w.now, priority, pgn, sa, bytes(data)))
+            for h in list(self.hooks):
+                h(tag, priority, pgn, sa, bytes(data))
         return f
 
     def by_tag(self, tag):
